@@ -398,6 +398,22 @@ var ProfileC18Params = func() *Profile {
 	return &p
 }()
 
+// ProfileC18Staking: the staking side of block processing (estaking's virtual Eden/EdenB delegations,
+// distribution hooks, the end-blocker's automatic withdrawals, epoch boundaries): stake, commit, partial
+// unstakes, uncommits and claims by the same few accounts over many blocks.
+var ProfileC18Staking = func() *Profile {
+	p := *ProfileC18
+	p.Name = "faults-staking"
+	p.Spec = specDefault
+	p.Weights = map[string]int{"commitment.stake": 12, "commitment.unstake": 14, "commitment.commit_claimed": 10, "commitment.uncommit": 8, "estaking.withdraw_rewards": 5,
+		"masterchef.claim": 4, "commitment.vest": 3, "commitment.cancel_vest": 2, "commitment.claim_vesting": 2, "amm.join": 3, "amm.swap_in": 4, "stablestake.bond": 2, "oracle.refresh": 3, "oracle.feed_price": 2}
+	p.Rule = "history with >=2 successful unstakes and >=1 successful stake and commit of Eden/EdenB, and >=1 block after a gap >= 1 day"
+	p.NonTrivial = func(h *History) bool {
+		return okCount(h, "commitment.unstake") >= 2 && okCount(h, "commitment.stake") >= 1 && okCount(h, "commitment.commit_claimed") >= 1 && h.Labels["gap>=1d"] > 0
+	}
+	return &p
+}()
+
 var ProfileC04 = &Profile{
 	ID: "C04", Name: "swap-batch", MinBlocks: 4, MaxBlocks: 25, MaxTxs: 4, Spec: specDefault, Check: CheckC04, ExtraOps: c04ExtraOps,
 	Weights: map[string]int{"amm.swap_in": 8, "amm.swap_out": 6, "amm.join": 4, "amm.exit": 3, "oracle.feed_price": 6, "perpetual.open": 3, "perpetual.close": 2, "stablestake.bond": 1, "amm.swap_in_2hop": 2},
